@@ -1,7 +1,7 @@
 (* proofs for C12: the walk of _subsample_without_replacement (K4), the two kernels per vector,
    Table.subsample at the content level *)
 From Coq Require Import List Arith ZArith Lia Bool Permutation.
-From BiomV Require Import Base.Tree Base.ListUtil Base.Matrix Model.Table Model.Filter Model.Stored
+From BiomV Require Import Base.Tree Base.ListUtil Base.Matrix Model.Table Model.Orient Model.Filter Model.Stored
   Model.Subsample Proofs.FilterProofs Proofs.StoredProofs.
 Import ListNotations.
 
@@ -369,7 +369,7 @@ Qed.
 (* ------------------------------------------------------------------ the two closing filters *)
 Definition posb (v : list Z) : bool := (0 <? zsum v)%Z.
 
-Lemma drop_nonpositive_mask a t : wf t -> drop_nonpositive a t = filter_mask (map posb (axis_vecs a t)) a t.
+Lemma drop_nonpositive_mask a t : wf t -> drop_nonpositive a t = filter_table (map posb (axis_vecs a t)) a t.
 Proof.
   intros W. unfold drop_nonpositive, filter_pred, sum_pos_verdicts. rewrite (sum_pos_mask a t W), xorb_false_map.
   reflexivity.
@@ -399,6 +399,23 @@ Qed.
 Lemma map_ext_Forall {A B} (f g : A -> B) l : Forall (fun x => f x = g x) l -> map f l = map g l.
 Proof. induction 1 as [|x l Hx _ IH]; simpl; [reflexivity|]. rewrite Hx, IH. reflexivity. Qed.
 
+(* the metadata normalisation at the end of Table.filter changes neither ids nor values *)
+Lemma axis_vecs_filter_table m a b t : axis_vecs b (filter_table m a t) = axis_vecs b (filter_mask m a t).
+Proof. destruct a, b; reflexivity. Qed.
+
+Lemma cell_filter_table m a t o s : cell (filter_table m a t) o s = cell (filter_mask m a t) o s.
+Proof. reflexivity. Qed.
+
+Lemma n_other_filter_table m a b t : n_other b (filter_table m a t) = n_other b (filter_mask m a t).
+Proof. destruct a, b; reflexivity. Qed.
+
+Lemma filter_table_norm_inner m b X :
+  (forall c, ids c (filter_table m b (norm_md X)) = ids c (filter_mask m b X)) /\
+  (forall c, axis_vecs c (filter_table m b (norm_md X)) = axis_vecs c (filter_mask m b X)) /\
+  (forall o s, cell (filter_table m b (norm_md X)) o s = cell (filter_mask m b X) o s) /\
+  ttype (filter_table m b (norm_md X)) = ttype (filter_mask m b X).
+Proof. repeat split; intros; destruct b; try destruct c; reflexivity. Qed.
+
 Section Finish.
   Variable a : axis.
   Variable K : table.
@@ -419,12 +436,6 @@ Section Finish.
     assert (W1 : wf T1) by (apply wf_filter_mask; exact WK).
     rewrite (axis_vecs_other a T1 W1). unfold T1. rewrite filter_mask_n_other, (axis_vecs_filter_same m1 a K WK).
     reflexivity.
-  Qed.
-
-  Lemma finish_eq : drop_nonpositive (other a) T1 = T2.
-  Proof.
-    assert (W1 : wf T1) by (apply wf_filter_mask; exact WK).
-    rewrite (drop_nonpositive_mask (other a) T1 W1). rewrite T1_other_vecs. reflexivity.
   Qed.
 
   Lemma finish_wf : wf T2.
@@ -525,6 +536,59 @@ Section Finish.
 
   Lemma finish_type : ttype T2 = ttype K.
   Proof. unfold T2, T1. destruct a; reflexivity. Qed.
+
+  (* ---- the same with Table.filter's closing metadata normalisation (filter_table) ---- *)
+  Let F1 := filter_table m1 a K.
+  Let R := filter_table m2 (other a) F1.
+
+  Lemma R_core : (forall c, ids c R = ids c T2) /\ (forall c, axis_vecs c R = axis_vecs c T2) /\
+                 (forall o s, cell R o s = cell T2 o s) /\ ttype R = ttype T2.
+  Proof. unfold R, F1, filter_table at 2. apply filter_table_norm_inner. Qed.
+
+  Lemma finishR_eq : drop_nonpositive (other a) F1 = R.
+  Proof.
+    assert (W1 : wf F1) by (apply wf_filter_table; exact WK).
+    rewrite (drop_nonpositive_mask (other a) F1 W1). unfold F1 at 1. rewrite axis_vecs_filter_table.
+    fold T1. rewrite T1_other_vecs. reflexivity.
+  Qed.
+
+  Lemma finishR_wf : wf R.
+  Proof. apply wf_filter_table, wf_filter_table. exact WK. Qed.
+
+  Lemma finishR_ids_axis : ids a R = select m1 (ids a K).
+  Proof. destruct R_core as (I & _). rewrite I. apply finish_ids_axis. Qed.
+
+  Lemma finishR_ids_other : ids (other a) R = select m2 (ids (other a) K).
+  Proof. destruct R_core as (I & _). rewrite I. apply finish_ids_other. Qed.
+
+  Lemma finishR_vecs_axis : axis_vecs a R = map (select m2) vs2.
+  Proof. destruct R_core as (_ & V & _). rewrite V. apply finish_vecs_axis. Qed.
+
+  Lemma finishR_ids_other_nz :
+    ids (other a) R = select (map (fun c => negb (all_zero c)) (axis_vecs (other a) F1)) (ids (other a) K).
+  Proof. destruct R_core as (I & _). rewrite I. unfold F1. rewrite axis_vecs_filter_table. apply finish_ids_other_nz. Qed.
+
+  Lemma finishR_vecs_other_nz :
+    axis_vecs (other a) R = filter (fun c => negb (all_zero c)) (axis_vecs (other a) F1).
+  Proof. destruct R_core as (_ & V & _). rewrite V. unfold F1. rewrite axis_vecs_filter_table. apply finish_vecs_other_nz. Qed.
+
+  Lemma finishR_cell o s : In o (oids R) -> In s (sids R) -> cell R o s = cell K o s.
+  Proof.
+    destruct R_core as (I & _ & CC & _). intros Ho Hs. rewrite CC. apply finish_cell.
+    - pose proof (I Obs) as IO. simpl in IO. rewrite <- IO. exact Ho.
+    - pose proof (I Samp) as IS. simpl in IS. rewrite <- IS. exact Hs.
+  Qed.
+
+  (* metadata travels with its id; a reader cannot tell None from the empty mapping (md_view) *)
+  Lemma finishR_md b x : In x (ids b R) -> md_view b R x = md_view b K x.
+  Proof.
+    intros Hx. assert (W1 : wf F1) by (apply wf_filter_table; exact WK).
+    unfold R in *. rewrite (filter_table_md_any m2 (other a) b F1 x W1 Hx).
+    apply filter_table_sub in Hx. unfold F1 in *. apply filter_table_md_any; assumption.
+  Qed.
+
+  Lemma finishR_type : ttype R = ttype K.
+  Proof. destruct R_core as (_ & _ & _ & T). rewrite T. apply finish_type. Qed.
 End Finish.
 
 (* ------------------------------------------------------------------ Table.subsample, counts without replacement *)
@@ -589,8 +653,8 @@ Theorem subsample_counts_spec n a lay draws t :
   ids (other a) t' = select (map (fun c => negb (all_zero c)) (axis_vecs (other a) (drop_nonpositive a K)))
                             (ids (other a) t) /\
   axis_vecs (other a) t' = filter (fun c => negb (all_zero c)) (axis_vecs (other a) (drop_nonpositive a K)) /\
-  (forall x, In x (ids a t') -> md_of a t' x = md_of a t x) /\
-  (forall y, In y (ids (other a) t') -> md_of (other a) t' y = md_of (other a) t y) /\
+  (forall x, In x (ids a t') -> md_view a t' x = md_view a t x) /\
+  (forall y, In y (ids (other a) t') -> md_view (other a) t' y = md_view (other a) t y) /\
   ttype t' = ttype t.
 Proof.
   intros W NN Hn HL HD K t'.
@@ -603,13 +667,13 @@ Proof.
   assert (NK : Forall (Forall (fun x => (0 <= x)%Z)) (axis_vecs a K)) by (rewrite EK; eapply Rwo_nonneg; exact R).
   assert (IK : forall b, ids b K = ids b t) by (intros b; destruct b; reflexivity).
   unfold t', subsample_counts. fold K. rewrite (drop_nonpositive_mask a K WK).
-  rewrite (finish_eq a K) by assumption.
-  split; [apply finish_wf; assumption|].
+  rewrite (finishR_eq a K) by assumption.
+  split; [apply finishR_wf; assumption|].
   split.
-  { rewrite finish_ids_axis by assumption. rewrite IK, EK. f_equal. apply (Forall2_map_eq (Rwo n)); [exact R|].
+  { rewrite finishR_ids_axis by assumption. rewrite IK, EK. f_equal. apply (Forall2_map_eq (Rwo n)); [exact R|].
     intros x y Hxy. apply Rwo_posb; assumption. }
   split.
-  { rewrite finish_vecs_axis by assumption. apply Forall_forall. intros v' Hv'. apply in_map_iff in Hv'.
+  { rewrite finishR_vecs_axis by assumption. apply Forall_forall. intros v' Hv'. apply in_map_iff in Hv'.
     destruct Hv' as [v2 [<- Hv2]]. rewrite (finish_sum a K) by assumption.
     assert (Hin : In v2 (axis_vecs a K)) by (eapply select_In; exact Hv2).
     assert (Hp : posb v2 = true).
@@ -627,16 +691,16 @@ Proof.
     { unfold cell in Hc. destruct (pos o (oids _)) as [i|]; [|discriminate].
       destruct (pos s (sids _)) as [j|] eqn:E; [|discriminate].
       apply pos_Some in E. destruct E as [<- Hj]. apply nth_In. exact Hj. }
-    unfold TT in *. rewrite (finish_cell a K) in Hc by assumption. unfold K, kernel_table_wo in Hc. rewrite cell_with_axis_vecs in Hc.
+    unfold TT in *. rewrite (finishR_cell a K) in Hc by assumption. unfold K, kernel_table_wo in Hc. rewrite cell_with_axis_vecs in Hc.
     rewrite (cell_axis_vecs a t o s W).
     destruct (pos o (oids t)) as [i|]; [|discriminate]. destruct (pos s (sids t)) as [j|]; [|discriminate].
     inversion Hc; subst. eexists. split; [reflexivity|].
     fold vs1. destruct a; simpl; apply (Rwo_get n _ _ R). }
-  split; [rewrite finish_ids_other_nz by assumption; rewrite IK; reflexivity|].
-  split; [apply finish_vecs_other_nz; assumption|].
-  split; [intros x Hx; rewrite (finish_md_axis a K) by assumption; apply md_of_with_axis_vecs|].
-  split; [intros y Hy; rewrite (finish_md_other a K) by assumption; apply md_of_with_axis_vecs|].
-  rewrite finish_type by assumption. reflexivity.
+  split; [rewrite finishR_ids_other_nz by assumption; rewrite IK; reflexivity|].
+  split; [apply finishR_vecs_other_nz; assumption|].
+  split; [intros x Hx; rewrite (finishR_md a K) by assumption; apply md_view_of_md_of; apply md_of_with_axis_vecs|].
+  split; [intros y Hy; rewrite (finishR_md a K) by assumption; apply md_view_of_md_of; apply md_of_with_axis_vecs|].
+  rewrite finishR_type by assumption. reflexivity.
 Qed.
 
 (* ------------------------------------------------------------------ with replacement *)
@@ -729,8 +793,8 @@ Theorem subsample_replace_core_spec n a lay draws t :
     Forall (fun v => zsum v = Z.of_nat n) (axis_vecs a t') /\
     (forall o s v, cell t' o s = Some v -> (0 <= v)%Z /\ (v <> 0%Z -> cell t o s <> Some 0%Z)) /\
     Forall (fun c => all_zero c = false) (axis_vecs (other a) t') /\
-    (forall x, In x (ids a t') -> md_of a t' x = md_of a t x) /\
-    (forall y, In y (ids (other a) t') -> md_of (other a) t' y = md_of (other a) t y) /\
+    (forall x, In x (ids a t') -> md_view a t' x = md_view a t x) /\
+    (forall y, In y (ids (other a) t') -> md_view (other a) t' y = md_view (other a) t y) /\
     ttype t' = ttype t.
 Proof.
   intros W NN Hn HL HP HD.
@@ -746,14 +810,14 @@ Proof.
   assert (AllPos : Forall (fun b => b = true) (map posb (axis_vecs a K))).
   { rewrite EK. apply Forall_forall. intros b Hb. apply in_map_iff in Hb. destruct Hb as [v' [<- Hv']].
     destruct (F2_in_r _ _ _ _ R Hv') as [v0 [_ (_ & _ & S & _)]]. unfold posb. rewrite S. apply Z.ltb_lt. lia. }
-  rewrite (drop_nonpositive_mask a K WK). rewrite (finish_eq a K) by assumption.
-  split; [apply finish_wf; assumption|].
+  rewrite (drop_nonpositive_mask a K WK). rewrite (finishR_eq a K) by assumption.
+  split; [apply finishR_wf; assumption|].
   split.
-  { rewrite finish_ids_axis by assumption. rewrite IK. apply select_all_true; [exact AllPos|].
+  { rewrite finishR_ids_axis by assumption. rewrite IK. apply select_all_true; [exact AllPos|].
     rewrite map_length, EK. exact Rl. }
-  split; [eexists; rewrite finish_ids_other by assumption; rewrite IK; reflexivity|].
+  split; [eexists; rewrite finishR_ids_other by assumption; rewrite IK; reflexivity|].
   split.
-  { rewrite finish_vecs_axis by assumption. apply Forall_forall. intros v' Hv'. apply in_map_iff in Hv'.
+  { rewrite finishR_vecs_axis by assumption. apply Forall_forall. intros v' Hv'. apply in_map_iff in Hv'.
     destruct Hv' as [v2 [<- Hv2]]. rewrite (finish_sum a K) by assumption.
     assert (Hin : In v2 (axis_vecs a K)) by (eapply select_In; exact Hv2).
     rewrite EK in Hin. destruct (F2_in_r _ _ _ _ R Hin) as [v0 [_ (_ & _ & S & _)]]. exact S. }
@@ -767,7 +831,7 @@ Proof.
     { unfold cell in Hc. destruct (pos o (oids _)) as [i|]; [|discriminate].
       destruct (pos s (sids _)) as [j|] eqn:E0; [|discriminate].
       apply pos_Some in E0. destruct E0 as [<- Hj]. apply nth_In. exact Hj. }
-    unfold TT in *. rewrite (finish_cell a K) in Hc by assumption. unfold K in Hc.
+    unfold TT in *. rewrite (finishR_cell a K) in Hc by assumption. unfold K in Hc.
     rewrite cell_with_axis_vecs in Hc. rewrite (cell_axis_vecs a t o s W).
     destruct (pos o (oids t)) as [i|]; [|discriminate]. destruct (pos s (sids t)) as [j|]; [|discriminate].
     injection Hc as <-.
@@ -775,11 +839,11 @@ Proof.
       by (destruct a; simpl; apply (Rrep_get n _ _ R)).
     destruct G as [G1 G2]. split; [exact G1|]. intros Hnz Hsome. inversion Hsome as [Hz]. apply Hnz. apply G2. exact Hz. }
   split.
-  { rewrite finish_vecs_other_nz by assumption. apply Forall_forall. intros c Hc. apply filter_In in Hc.
+  { rewrite finishR_vecs_other_nz by assumption. apply Forall_forall. intros c Hc. apply filter_In in Hc.
     destruct Hc as [_ Hc]. apply negb_true_iff in Hc. exact Hc. }
-  split; [intros x Hx; rewrite (finish_md_axis a K) by assumption; apply md_of_with_axis_vecs|].
-  split; [intros y Hy; rewrite (finish_md_other a K) by assumption; apply md_of_with_axis_vecs|].
-  rewrite finish_type by assumption. reflexivity.
+  split; [intros x Hx; rewrite (finishR_md a K) by assumption; apply md_view_of_md_of; apply md_of_with_axis_vecs|].
+  split; [intros y Hy; rewrite (finishR_md a K) by assumption; apply md_view_of_md_of; apply md_of_with_axis_vecs|].
+  rewrite finishR_type by assumption. reflexivity.
 Qed.
 
 (* ------------------------------------------------------------------ by id *)
@@ -825,30 +889,30 @@ Theorem subsample_by_id_spec n a shuffled t :
   (forall o s, In o (oids t') -> In s (sids t') -> cell t' o s = cell t o s) /\
   ids (other a) t' = select (map (fun c => negb (all_zero c)) (axis_vecs (other a) (filter_mask keep a t)))
                             (ids (other a) t) /\
-  (forall x, In x (ids a t') -> md_of a t' x = md_of a t x) /\
-  (forall y, In y (ids (other a) t') -> md_of (other a) t' y = md_of (other a) t y) /\
+  (forall x, In x (ids a t') -> md_view a t' x = md_view a t x) /\
+  (forall y, In y (ids (other a) t') -> md_view (other a) t' y = md_view (other a) t y) /\
   ttype t' = ttype t.
 Proof.
   intros W NN HP keep t'. pose proof (nonneg_axis_vecs a t NN) as NK.
   unfold t', subsample_by_id, filter_pred. rewrite by_id_mask, xorb_false_map. fold keep.
-  rewrite (finish_eq a t) by assumption.
+  rewrite (finishR_eq a t) by assumption.
   assert (EI : select keep (ids a t) = filter (fun i => zmem i (firstn n shuffled)) (ids a t))
     by (unfold keep; apply select_map_filter).
-  split; [apply finish_wf; assumption|].
-  split; [rewrite finish_ids_axis by assumption; exact EI|].
+  split; [apply finishR_wf; assumption|].
+  split; [rewrite finishR_ids_axis by assumption; exact EI|].
   split.
-  { rewrite finish_ids_axis by assumption. rewrite EI.
+  { rewrite finishR_ids_axis by assumption. rewrite EI.
     assert (ND : NoDup (ids a t)) by (destruct W as (_ & _ & A & B & _); destruct a; assumption).
     rewrite count_members.
     - rewrite firstn_length. rewrite (Permutation_length HP). reflexivity.
     - exact ND.
     - apply NoDup_firstn_Z. eapply Permutation_NoDup; [exact HP|exact ND].
     - intros x Hx. eapply Permutation_in; [apply Permutation_sym; exact HP|]. eapply In_firstn. exact Hx. }
-  split; [intros o s Ho Hs; apply (finish_cell a t); assumption|].
-  split; [apply finish_ids_other_nz; assumption|].
-  split; [intros x Hx; apply (finish_md_axis a t); assumption|].
-  split; [intros y Hy; apply (finish_md_other a t); assumption|].
-  apply finish_type; assumption.
+  split; [intros o s Ho Hs; apply (finishR_cell a t); assumption|].
+  split; [rewrite (finishR_ids_other_nz a t) by assumption; rewrite axis_vecs_filter_table; reflexivity|].
+  split; [intros x Hx; apply (finishR_md a t); assumption|].
+  split; [intros y Hy; apply (finishR_md a t); assumption|].
+  apply finishR_type; assumption.
 Qed.
 
 (* ------------------------------------------------------------------ the method: refusals, receiver *)
@@ -903,7 +967,7 @@ Proof.
 Qed.
 
 Lemma wf_drop_nonpositive a t : wf t -> wf (drop_nonpositive a t).
-Proof. intros W. unfold drop_nonpositive, filter_pred. apply wf_filter_mask. exact W. Qed.
+Proof. intros W. unfold drop_nonpositive, filter_pred. apply wf_filter_table. exact W. Qed.
 
 Lemma wf_with_same_len a t vs1 :
   wf t -> Forall2 (fun v v' : list Z => length v' = length v) (axis_vecs a t) vs1 -> wf (with_axis_vecs a t vs1).
@@ -930,7 +994,7 @@ Proof. intros W. unfold subsample_replace. apply subsample_replace_core_wf. appl
 
 Theorem subsample_by_id_wf n a shuffled t : wf t -> wf (subsample_by_id n a shuffled t).
 Proof.
-  intros W. unfold subsample_by_id. apply wf_drop_nonpositive. unfold filter_pred. apply wf_filter_mask. exact W.
+  intros W. unfold subsample_by_id. apply wf_drop_nonpositive. unfold filter_pred. apply wf_filter_table. exact W.
 Qed.
 
 Theorem subsample_wf n a by_id wr lay draws t t' :
@@ -967,15 +1031,16 @@ Theorem subsample_replace_spec n a lay draws t :
     (forall o s v, cell t' o s = Some v -> (0 <= v)%Z /\ (v <> 0%Z -> cell t o s <> Some 0%Z)) /\
     Forall (fun c => all_zero c = false) (axis_vecs (other a) t') /\
     (exists m2, ids (other a) t' = select m2 (ids (other a) t)) /\
-    (forall x, In x (ids a t') -> md_of a t' x = md_of a t x) /\
-    (forall y, In y (ids (other a) t') -> md_of (other a) t' y = md_of (other a) t y) /\
+    (forall x, In x (ids a t') -> md_view a t' x = md_view a t x) /\
+    (forall y, In y (ids (other a) t') -> md_view (other a) t' y = md_view (other a) t y) /\
     ttype t' = ttype t.
 Proof.
   intros W NN Hn. rewrite (drop_nonpositive_mask a t W). set (m0 := map posb (axis_vecs a t)).
-  set (t0 := filter_mask m0 a t). intros HL HD.
-  assert (W0 : wf t0) by (apply wf_filter_mask; exact W).
-  assert (N0 : nonneg_table t0) by (apply nonneg_filter_mask; exact NN).
-  assert (V0 : axis_vecs a t0 = select m0 (axis_vecs a t)) by (apply axis_vecs_filter_same; exact W).
+  set (t0 := filter_table m0 a t). intros HL HD.
+  assert (W0 : wf t0) by (apply wf_filter_table; exact W).
+  assert (N0 : nonneg_table t0) by (apply (nonneg_filter_mask m0 a t); exact NN).
+  assert (V0 : axis_vecs a t0 = select m0 (axis_vecs a t))
+    by (unfold t0; rewrite axis_vecs_filter_table; apply axis_vecs_filter_same; exact W).
   assert (P0 : Forall (fun v => (0 < zsum v)%Z) (axis_vecs a t0)).
   { rewrite V0. pose proof (Forall_select_map posb (axis_vecs a t)) as F. fold m0 in F.
     eapply Forall_impl; [|exact F]. intros v Hv. unfold posb in Hv. apply Z.ltb_lt. exact Hv. }
@@ -983,8 +1048,9 @@ Proof.
     as (t' & E & W' & I1 & [m2 I2] & S & C & Z0 & M1 & M2 & Ty).
   exists t'. unfold subsample_replace. rewrite (drop_nonpositive_mask a t W). fold m0 t0.
   split; [exact E|]. split; [exact W'|].
+  assert (IA : ids a t0 = select m0 (ids a t)) by (unfold t0; rewrite filter_table_ids; apply ids_filter_same).
   assert (IO : ids (other a) t0 = ids (other a) t) by (destruct a; reflexivity).
-  split; [rewrite I1; apply ids_filter_same|].
+  split; [rewrite I1; exact IA|].
   split; [exact S|].
   split.
   { intros o s v Hc. destruct (C o s v Hc) as [C1 C2]. split; [exact C1|]. intros Hnz.
@@ -995,14 +1061,15 @@ Proof.
       split; apply nth_In; assumption. }
     assert (In o (oids t0) /\ In s (sids t0)) as [Ho0 Hs0].
     { destruct a; simpl in I1, I2; rewrite I1 in *; rewrite I2 in *; split; try assumption; eapply select_In; eassumption. }
-    rewrite <- (filter_mask_cell m0 a t o s W Ho0 Hs0). apply C2. exact Hnz. }
+    rewrite <- (filter_table_cell m0 a t o s W Ho0 Hs0). apply C2. exact Hnz. }
   split; [exact Z0|].
   split; [exists m2; rewrite I2, IO; reflexivity|].
   split.
-  { intros x Hx. rewrite (M1 x Hx). apply filter_mask_md; [exact W|]. change (In x (ids a t0)). rewrite <- I1. exact Hx. }
+  { intros x Hx. rewrite (M1 x Hx). apply filter_table_md_any; [exact W|]. change (In x (ids a t0)). rewrite <- I1. exact Hx. }
   split.
-  { intros y Hy. rewrite (M2 y Hy). apply md_of_filter_other. }
-  rewrite Ty. destruct a; reflexivity.
+  { intros y Hy. rewrite (M2 y Hy). apply filter_table_md_any; [exact W|]. change (In y (ids (other a) t0)).
+    rewrite I2 in Hy. eapply select_In. exact Hy. }
+  rewrite Ty. apply ft_ttype.
 Qed.
 
 (* ------------------------------------------------------------------ the kernel on the arrays = the walk per segment
